@@ -195,7 +195,9 @@ func (c *Ctx) RunSharded(cases []string, o ShardOpts) {
 					}
 					done++
 				}
-				if done >= len(todo) && r.Exit == 0 {
+				if done >= len(todo) {
+					// every case finished; a non-zero status here is the race detector's exit code
+					// (its reports are read from the log files)
 					return
 				}
 				// the child died (or was killed by the watchdog) inside todo[done]
